@@ -151,3 +151,41 @@ example :
     (run st0 [.set (.decl 0) "a" (.handle 0), .getitem (.decl 0) "a", .getitem (.decl 0) "a"]).2
       = [.unit, .item (.raised "LoadError"), .item (.ok (.val (.tok 0 1)))] := by decide
 
+
+/-- **A loader that uses the resource tree while it loads** (re-entrant semantics `callHR`, user code
+as scripts `S`).  Whatever the script of this `load()` does — read other resources (nested loads),
+clear this very handle or a sibling or the whole map, assign into the map, take a snapshot — when
+`load()` returns, the handle holds the returned object and is cached: the access hands out
+`tok h n`, `n` being the number of loads of `h` that have returned by then, and `h.cached` is true
+(a `clear()` issued *during* the load is overridden by the assignment that follows it in
+`Handle.__call__`, tree.py:43-44).  This is what the unchanged code does; the statements above are
+about programs without re-entrant user code. -/
+theorem C12_reentrant_load_caches (S : Scripts) (fuel : Nat) (rs : RSt) (h : HId)
+    (hc : (rs.st.h h).cached = false) (hf : rs.st.failing h ((rs.st.h h).tries + 1) = false) :
+    ∃ n, (callHR S (fuel + 1) rs h).2 = Val.tok h n ∧
+      ((callHR S (fuel + 1) rs h).1.st.h h).cached = true ∧
+      ((callHR S (fuel + 1) rs h).1.st.h h).cache = Val.tok h n ∧
+      ((callHR S (fuel + 1) rs h).1.st.h h).loads = n := by
+  simp only [callHR, hc, Bool.false_eq_true, if_false, failing_setH, hf]
+  exact ⟨_, rfl, by simp, by simp, by simp⟩
+
+example :
+    let S : Scripts := fun hk k => if hk = .load 0 ∧ k = 0 then [.hclear 0, .call 1] else []
+    let r := callHR S 50 {} 0
+    r.2 = Val.tok 0 1 ∧ (r.1.st.h 0).cached = true ∧ (r.1.st.h 1).loads = 1 ∧
+    (callHR S 50 r.1 0).2 = Val.tok 0 1 := by decide +kernel
+
+/-- Without scripts the re-entrant call is the plain one (same result, same handles, same maps). -/
+theorem C12_no_scripts_same (fuel : Nat) (rs : RSt) (h : HId) :
+    (callHR (fun _ _ => []) (fuel + 2) rs h).2 = (callH rs.st h).2 ∧
+    (∀ g, (callHR (fun _ _ => []) (fuel + 2) rs h).1.st.h g = (callH rs.st h).1.h g) ∧
+    (∀ j, (callHR (fun _ _ => []) (fuel + 2) rs h).1.st.m j = (callH rs.st h).1.m j) := by
+  by_cases hc : (rs.st.h h).cached = true
+  · simp [callHR, callH, hc]
+  · by_cases hf : rs.st.failing h ((rs.st.h h).tries + 1) = true
+    · simp [callHR, callH, hc, hf]
+    · simp only [callHR, callH, hc, hf, failing_setH, fire, execOpsR_nil, Bool.false_eq_true, if_false]
+      refine ⟨by simp, fun g => ?_, fun j => by simp⟩
+      by_cases e : h = g
+      · subst e; simp
+      · simp [e]
